@@ -79,7 +79,10 @@ def run(chk, tier, proof_ok):
         d = divs[0]
         broken.append('correspondence suite adapt: %d diverging case(s); first: %s/%s history %s step %d: %s' % (
             len(divs), d['case']['family'], d['case'].get('variant'), d['case']['model'], d['step'], d['why'][:400]))
-    if broken and not chk.violations:
+    # a finding explains a broken correspondence only if it is about a family that diverged
+    div_fams = {d['case']['family'] for d in divs}
+    explained = proof_ok and bool(divs) and div_fams <= {adapt.finding_family(key) for key in findings}
+    if broken and not explained:
         chk.violation('unproved', '; '.join(broken)[:1500],
                       {'no_longer_checks': broken, 'case': divs[0]['case'] if divs else None,
                        'how_to_replay': './check C14 --replay <this file>'}, False)
